@@ -19,6 +19,8 @@ TABLE = {
     'C05-m2': ([('demo_test.go', 'internal/c05m2')], GT + "-run TestC05M2 ./internal/c05m2"),
     'C06-m1': ([('header_object_roundtrip_test.go', 'uri')], GT + "-run TestHeaderObjectRoundTrip ./uri/"),
     'C06-m2': ([('demo_test.go', 'internal/mutdemo_c06')], GT + "-run TestCookieExplodeArray ./internal/mutdemo_c06/"),
+    'C07-m1': ([('c07_m1_demo_test.go', 'openapi/parser')], GT + "-run TestC07M1 ./openapi/parser/"),
+    'C07-m2': ([('c07_m2_demo_test.go', 'openapi/parser')], GT + "-run TestC07M2 ./openapi/parser/"),
     'C08-m1': ([('c08_m1_demo_test.go', 'ogenregex')], GT + "-run TestC08M1 ./ogenregex/"),
     'C08-m2': ([('c08_m2_demo_test.go', 'ogenregex')], GT + "-run TestC08M2 ./ogenregex/"),
     'C09-m1': ([('override_demo_test.go', 'internal/c09demo')], GT + "-run TestOperationLevelEmptySecurityOverride ./internal/c09demo/"),
